@@ -1053,7 +1053,13 @@ _G = [
 ]
 _BIG = 2 ** 53
 _JNEG = [{"sp": {"a": -1, "b": 1}, "doc": {"a": -2.5}}, {"sp": {"a": 1, "b": 1}, "doc": {"a": 2.5}}, {"sp": {"a": "-1", "b": -0.5}, "doc": {"a": -2}}]
+_JPATH = [{"sp": {"a": "tmp/a", "b": 1}, "doc": {"s": "a/b/"}, "link": True}, {"sp": {"a": "tmpfile", "b": 1}, "doc": {"s": "a/b"}},
+          {"sp": {"a": "/usr/bin", "b": 2}, "doc": {"s": "/ab"}}, {"sp": {"a": "usr", "b": 2}, "doc": None}, {"sp": {"a": "a/b/"}, "doc": {"s": "b"}}]
 CONSTRUCTED = [
+    # /regex/ tokens whose expression itself starts or ends with the delimiter (path-like values)
+    *[{"jobs": _JPATH, "filter": f, "rewrites": [[6, k]], "slices": [], "groupings": []}
+      for f in ({"a": {"$regex": "tmp/"}}, {"a": {"$regex": "/usr"}}, {"doc.s": {"$regex": "^a/b/$"}}, {"a": {"$regex": "b/"}, "b": 1},
+                {"a": {"$regex": "/"}}, {"doc.s": {"$regex": "/"}, "a": {"$regex": "^/"}}) for k in range(4)],
     # negative numbers in the token / string front ends
     *[{"jobs": _JNEG, "filter": f, "rewrites": [[6, k]], "slices": [], "groupings": []}
       for f in ({"a": -1}, {"doc.a": -2.5}, {"b": -0.5, "doc.a": -2}, {"a": -1, "b": 1}) for k in range(4)],
